@@ -68,7 +68,7 @@ pub fn string_upcase(vm: &mut Vm) -> Result<VCell, Error> {
 pub fn string_foldcase(vm: &mut Vm) -> Result<VCell, Error> {
     pop_argc(vm, 1, Some(1), "string-foldcase")?;
     let s = pop_string(vm, "string-foldcase")?;
-    let s = s.borrow().to_lowercase();
+    let s = foldcase(&s.borrow());
     Ok(VCell::string(s))
 }
 
@@ -336,32 +336,39 @@ pub fn string_gt_eq(vm: &mut Vm) -> Result<VCell, Error> {
 
 pub fn string_ci_eq(vm: &mut Vm) -> Result<VCell, Error> {
     string_comp(vm, "string-ci=?", |x, y| {
-        x.to_lowercase() == y.to_lowercase()
+        foldcase(x) == foldcase(y)
     })
 }
 
 pub fn string_ci_lt(vm: &mut Vm) -> Result<VCell, Error> {
     string_comp(vm, "string-ci<?", |x, y| {
-        x.to_lowercase() < y.to_lowercase()
+        foldcase(x) < foldcase(y)
     })
 }
 
 pub fn string_ci_gt(vm: &mut Vm) -> Result<VCell, Error> {
     string_comp(vm, "string-ci>?", |x, y| {
-        x.to_lowercase() > y.to_lowercase()
+        foldcase(x) > foldcase(y)
     })
 }
 
 pub fn string_ci_lt_eq(vm: &mut Vm) -> Result<VCell, Error> {
     string_comp(vm, "string-ci<=?", |x, y| {
-        x.to_lowercase() <= y.to_lowercase()
+        foldcase(x) <= foldcase(y)
     })
 }
 
 pub fn string_ci_gt_eq(vm: &mut Vm) -> Result<VCell, Error> {
     string_comp(vm, "string-ci>=?", |x, y| {
-        x.to_lowercase() >= y.to_lowercase()
+        foldcase(x) >= foldcase(y)
     })
+}
+
+/// Case folding maps every character on its own. (`str::to_lowercase` is
+/// context sensitive: it gives a capital sigma at the end of a word its
+/// final form, which is right for string-downcase but not for a folding.)
+fn foldcase(s: &str) -> String {
+    s.chars().flat_map(char::to_lowercase).collect()
 }
 
 fn string_comp(vm: &mut Vm, name: &str, comp: impl Fn(&str, &str) -> bool) -> Result<VCell, Error> {
